@@ -19,7 +19,7 @@ BUILD = os.path.join(ROOT, "build")
 SPEC = os.path.join(ROOT, "spec")
 HARNESS = os.path.join(ROOT, "harness")
 GUARD = "CPP_TBOX_VERIF"
-NCPU = os.cpu_count() or 4
+NCPU = int(os.environ.get("VERIF_WORKERS", os.cpu_count() or 4))
 
 TLA_CP = "/opt/veriftools/tla/tla2tools.jar:/opt/veriftools/tla/CommunityModules-deps.jar"
 
@@ -179,7 +179,7 @@ class Ctx:
 
     # -- exhaustive / simulation model checking ---------------------------------------------------
     def tlc_mc(self, spec_dir, tla, cfg, expect="ok", workers=None, timeout=900, simulate=None, env=None,
-               jvm=("-Xmx8g",), coverage=True, required_actions=(), label=None, deadlock=None):
+               jvm=("-Xmx6g",), coverage=True, required_actions=(), label=None, deadlock=None):
         """Run TLC on spec/<spec_dir>/<tla> with <cfg>.  expect='ok' : no error;  expect='<InvName>' : this
         invariant/property must be violated (non-vacuity / as-found configurations)."""
         d = os.path.join(SPEC, spec_dir)
@@ -227,7 +227,7 @@ class Ctx:
         return r, out
 
     # -- behaviour generation -----------------------------------------------------------------------
-    def tlc_gen(self, spec_dir, tla, cfg, timeout=900, workers=None, env=None, simulate=None, jvm=("-Xmx8g",), limit=None):
+    def tlc_gen(self, spec_dir, tla, cfg, timeout=900, workers=None, env=None, simulate=None, jvm=("-Xmx6g",), limit=None):
         """Gen_* specs print one line  "BEHAVIOUR <json>"  per behaviour from a CONSTRAINT (see spec/common/README).
         Returns the list of parsed behaviours (deduplicated)."""
         d = os.path.join(SPEC, spec_dir)
@@ -269,7 +269,7 @@ class Ctx:
         return res
 
     # -- trace validation -----------------------------------------------------------------------------
-    def tlc_trace(self, spec_dir, tla, cfg, trace_path, n_exec, timeout=900, env=None, jvm=("-Xmx8g",), what="trace",
+    def tlc_trace(self, spec_dir, tla, cfg, trace_path, n_exec, timeout=900, env=None, jvm=("-Xmx6g",), what="trace",
                   dfs=False):
         """Validate an ndjson trace file (executions separated by {"e":"Reset"}) against a Trace_* spec.
         Returns (accepted, info). A rejection is re-run once; only a repeated rejection is reported."""
